@@ -1,9 +1,13 @@
 package c02
 
 import (
+	"bytes"
+	"compress/gzip"
 	"context"
+	"encoding/binary"
 	"encoding/json"
 	"fmt"
+	"io"
 	"sync/atomic"
 	"time"
 
@@ -41,6 +45,13 @@ func newConns(c Case) (aN, bN *vkit.BufConn, aS, bS *srvConn) {
 	bS.ReadCap.Store(int32(c.SrvReadCapB))
 	aN.ReadCap.Store(int32(c.CliReadCapA))
 	bN.ReadCap.Store(int32(c.CliReadCapB))
+	// the kind of the injected transport error (set before the conns are used)
+	switch c.Ending.ErrKind {
+	case "timeout-forever": // permanent error with Timeout()==true, Temporary()==false (QUIC idle timeout)
+		aRaw.FailErr, bRaw.FailErr = vkit.TimeoutForever, vkit.TimeoutForever
+	case "eof": // the transport reports a clean end of stream
+		aRaw.FailErr, bRaw.FailErr = io.EOF, io.EOF
+	}
 	return
 }
 
@@ -126,6 +137,99 @@ func tunnelOpen(cl *miniserver.Client, req *packet.TunnelOpenRequest) error {
 		}
 		return nil
 	}
+}
+
+const ackKey = "C02/session/tunnel-bytes-before-or-inside-attach-ack"
+
+// readFullBy reads len(p) bytes from the client's end or gives up at the deadline.
+func readFullBy(near *vkit.BufConn, p []byte, deadline time.Time) (int, error) {
+	near.SetReadDeadline(deadline)
+	defer near.SetReadDeadline(time.Time{})
+	return io.ReadFull(near, p)
+}
+
+var definedTypes = map[byte]bool{0x01: true, 0x02: true, 0x03: true, 0x10: true, 0x11: true, 0x20: true, 0x21: true, 0x22: true, 0x23: true, 0x24: true}
+
+// awaitTargetAck consumes, byte by byte exactly, what the server writes to the target's tunnel
+// connection up to and including the TunnelOpenAck. The target learns from the ack that the raw
+// tunnel stream starts right behind it, so every byte up to the end of the ack must belong to a
+// well-formed packet: a tunnel byte in front of or inside the ack (the ack is several Writes) is
+// delivered to the wrong place - it is neither a packet nor part of the stream the target reads.
+// Returns nil (attached), a setup failure (nothing arrived / clean refusal) or the violation.
+func awaitTargetAck(near *vkit.BufConn, tunnelID string) *failure {
+	deadline := time.Now().Add(3 * time.Second)
+	var seen []byte
+	garbage := func(why string) *failure {
+		// show what else is there
+		extra := near.ReadAllAvailable()
+		if len(extra) > 48 {
+			extra = extra[:48]
+		}
+		return &failure{key: ackKey, detail: fmt.Sprintf("%s; bytes received on the target connection after the handshake: % x | then % x ... (a well-formed ack starts with 61|21, a 4-byte length and a gzip/JSON body)", why, seen, extra)}
+	}
+	for pkts := 0; pkts < 8; pkts++ {
+		hdr := make([]byte, 1)
+		if n, err := readFullBy(near, hdr, deadline); n == 0 {
+			if len(seen) == 0 {
+				return harnessFail("target TunnelOpen", fmt.Errorf("nothing arrived on the target connection: %v", err))
+			}
+			return harnessFail("target TunnelOpen", fmt.Errorf("no ack after %d well-formed bytes: %v", len(seen), err))
+		}
+		seen = append(seen, hdr[0])
+		typ := hdr[0]
+		if typ&0x80 != 0 || !definedTypes[typ&0x3F] {
+			return garbage(fmt.Sprintf("byte %#02x where a packet type was due", typ))
+		}
+		if typ&0x3F == 0x03 {
+			continue // heartbeat: no body
+		}
+		lb := make([]byte, 4)
+		if n, err := readFullBy(near, lb, deadline); n < 4 {
+			return harnessFail("target TunnelOpen", fmt.Errorf("packet length incomplete (%d/4 bytes): %v", n, err))
+		}
+		seen = append(seen, lb...)
+		ln := binary.BigEndian.Uint32(lb)
+		if ln > 64*1024 {
+			return garbage(fmt.Sprintf("packet of type %#02x announces a body of %d bytes", typ, ln))
+		}
+		body := make([]byte, ln)
+		if n, err := readFullBy(near, body, deadline); n < int(ln) {
+			return harnessFail("target TunnelOpen", fmt.Errorf("packet body incomplete (%d/%d bytes): %v", n, ln, err))
+		}
+		if len(seen) < 64 {
+			k := len(body)
+			if k > 40 {
+				k = 40
+			}
+			seen = append(seen, body[:k]...)
+		}
+		plain := body
+		if typ&0x40 != 0 {
+			zr, err := gzip.NewReader(bytes.NewReader(body))
+			if err != nil {
+				return garbage(fmt.Sprintf("body of the type %#02x packet is not gzip (%v)", typ, err))
+			}
+			plain, err = io.ReadAll(zr)
+			if err != nil {
+				return garbage(fmt.Sprintf("body of the type %#02x packet does not inflate (%v)", typ, err))
+			}
+		}
+		if typ&0x3F != 0x21 {
+			continue // some other well-formed packet ahead of the ack
+		}
+		var ack packet.TunnelOpenAckResponse
+		if err := json.Unmarshal(plain, &ack); err != nil {
+			return garbage(fmt.Sprintf("TunnelOpenAck body is not JSON (%v)", err))
+		}
+		if !ack.Success {
+			return harnessFail("target TunnelOpen", fmt.Errorf("refused: %s", ack.Error))
+		}
+		if ack.TunnelID != tunnelID {
+			return garbage(fmt.Sprintf("TunnelOpenAck for tunnel %q, expected %q", ack.TunnelID, tunnelID))
+		}
+		return nil
+	}
+	return harnessFail("target TunnelOpen", fmt.Errorf("8 packets and no ack"))
 }
 
 func newMiniRig(c Case) (*rig, *failure) {
@@ -224,8 +328,10 @@ func newMiniRig(c Case) (*rig, *failure) {
 		return nil
 	}
 	r.attach = func() *failure {
-		if err := tunnelOpen(tunB, req); err != nil {
-			return harnessFail("target TunnelOpen", err)
+		b, _ := json.Marshal(req)
+		tunB.Push(&packet.TransferPacket{PacketType: packet.TunnelOpen, Payload: b})
+		if f := awaitTargetAck(r.bN, tunnelID); f != nil {
+			return f
 		}
 		r.bN.ReadCap.Store(capB)
 		return nil
